@@ -45,7 +45,7 @@ CLAIMED = {
     technique="SAT-based bounded model checking (Kani/CBMC) of the real primitives with a 128-bit arithmetic oracle, and SMT (z3, QF_BV) over the MIR of the numeric kernels for kind-pair totality and (code generator) for the range of literal operands packed into instruction payloads; native replay by concrete playback / a script call",
     design="§4 C10"),
  "C11": dict(
-    text="PARTIAL (sequences only): bounded model checking (Kani/CBMC) of the registered wrappers of bytes-ref, bytes-set!, bytes-copy, string-ref (thorough: bytes->string/utf8, integer->char) on a 2-byte vector / 3-character string with symbolic contents and full-width symbolic integer arguments: the answer is the one the mathematical sequence gives exactly for the valid indices and an error otherwise. Plus an SMT query (z3) over the decision trees of `PartialEq::eq` and `RecursiveEqualityHandler::visit` read from MIR: every kind compared by value at the top level has an arm for nested values (leaf comparison is the same at every depth). Sharing inside values (F7) and hashing are NOT decided by any check. Round 3: SMT queries over the data flow of the real equality handler read from MIR: every two-operand call / comparison of RecursiveEqualityHandler::visit takes one operand from the left and one from the right value, every kind whose arm iterates also compares the two lengths, every key of the visited set is built from both sides (this decides the sharing defect F7 and the hash-set defect, both repaired). And: the cross-kind arms of the equality handler against the kind tag the hash mixes in (a mutable and an immutable vector are equal? and must hash alike).",
+    text="PARTIAL (sequences only): bounded model checking (Kani/CBMC) of the registered wrappers of bytes-ref, bytes-set!, bytes-copy, string-ref (thorough: bytes->string/utf8, integer->char) on a 2-byte vector / 3-character string with symbolic contents and full-width symbolic integer arguments: the answer is the one the mathematical sequence gives exactly for the valid indices and an error otherwise. Plus an SMT query (z3) over the decision trees of `PartialEq::eq` and `RecursiveEqualityHandler::visit` read from MIR: every kind compared by value at the top level has an arm for nested values (leaf comparison is the same at every depth). Sharing inside values (F7) and hashing are NOT decided by any check. Round 3: SMT queries over the data flow of the real equality handler read from MIR: every two-operand call / comparison of RecursiveEqualityHandler::visit takes one operand from the left and one from the right value, every kind whose arm iterates also compares the two lengths, every key of the visited set is built from both sides (this decides the sharing defect F7 and the hash-set defect, both repaired). And: the cross-kind arms of the equality handler against the kind tag the hash mixes in (a mutable and an immutable vector are equal? and must hash alike). Further: the handler answers true only when both work lists are empty; the four vector-kind combinations all compare lengths; no kind compared by value is hashed by identity.",
     note="Measured out: the real equality handler (drop glue of 37 variants per loop iteration: >1200 s, 12 GB; harness/eq.rs kept as the record; the sharing defect F7 is decided since round 3 by the MIR data-flow queries, not by executing the handler), hashing (SipHash + HAMT), lists / persistent vectors / hash maps / hash sets (1200 s timeouts), substring, make-bytes. One operation at a time, not operation sequences. The data-flow facts say which values meet in a call, not what the callee does with them; hashing agreement is not decided.",
     technique="SAT-based bounded model checking (Kani/CBMC) of real sequence primitives through their registered wrappers against a mathematical-sequence oracle, and SMT (z3, QF_BV) over MIR-extracted arm tables of the two equality matches; native replay by concrete playback / equal? on nested values through the engine",
     design="§4 C11"),
@@ -60,7 +60,7 @@ CLAIMED = {
     technique="SMT-based bounded model checking (z3, QF_BV): fair-lasso search over MIR-extracted thread automata; native replay with a watchdog",
     design="§3, §4 C16"),
  "C17": dict(engine="mir-bmc",
-    text="Same extraction and unrolling as C15 with a host thread that runs the real ThreadStateController::interrupt on a script thread's controller: can the target complete 3 further polls, all begun after interrupt() returned, without returning the interruption error.",
+    text="Same extraction and unrolling as C15 with a host thread that runs the real ThreadStateController::interrupt on a script thread's controller: can the target complete 3 further polls, all begun after interrupt() returned, without returning the interruption error. Round 3: a reachability query over the MIR of the interpreter's poll: the arm that delivers an interruption does not write the thread-state controller, so the request persists until the host clears it (a script that catches the error in a handler is still stopped).",
     note="As C15. Interpreter tier only. Outside: native-compiled loops, loops inside primitives that do not return to dispatch, the watchdog thread of interrupt.rs.",
     technique="SMT-based bounded model checking (z3, QF_BV) of MIR-extracted thread automata plus a host-interrupt role; native schedule replay",
     design="§3, §4 C17"),
